@@ -179,6 +179,7 @@ type vfzEnv struct {
 	salt  uint64
 	gctr  atomic.Uint64
 	stop  atomic.Pointer[vfzStop]
+	rec   atomic.Pointer[vfzRecorder]
 	bar   atomic.Pointer[vfzBarrier]
 	fidMu sync.Mutex
 	fids  map[uint64]string
@@ -210,6 +211,13 @@ type vfzStop struct {
 	reached     chan struct{}
 	release     chan struct{}
 	skip        atomic.Int32 // matches to let pass before the one that is held
+	any         bool         // every backend-operation boundary matches (nested schedules)
+}
+
+// vfzRecorder lists the backend-operation boundaries a request passes (probe run of a nested schedule).
+type vfzRecorder struct {
+	mu   sync.Mutex
+	list []string
 }
 
 func (e *vfzEnv) arm(when, op, p string) *vfzStop {
@@ -236,7 +244,12 @@ type vfzBarrier struct {
 }
 
 func (e *vfzEnv) gate(when, op, p string) {
-	if st := e.stop.Load(); st != nil && st.when == when && st.op == op && st.p == p && st.skip.Add(-1) == -1 {
+	if r := e.rec.Load(); r != nil {
+		r.mu.Lock()
+		r.list = append(r.list, when+" "+op+" "+p)
+		r.mu.Unlock()
+	}
+	if st := e.stop.Load(); st != nil && (st.any || st.when == when && st.op == op && st.p == p) && st.skip.Add(-1) == -1 {
 		close(st.reached)
 		<-st.release
 		return
@@ -1300,6 +1313,175 @@ func vfzDirected(t testing.TB, name string, cfg vfzCfg, setup func(boot *vfzClie
 	return h, true
 }
 
+// ---------------------------------------------------------------- nested schedules
+
+// A nested schedule puts another client's mutation of the SAME object inside one request's backend
+// window: the holder (a request on the file d/x or its handle) is held at its k-th backend-operation
+// boundary, the intruder renames d/x away or removes it, the holder is released and completes, the
+// intruder optionally puts the name back, and then both clients use the old handle and the directory
+// again. Every boundary of every holder is tried (the boundaries are listed by a probe run of the
+// holder alone). Same names, so no reply is compared (mode "contend"): what is judged is that every
+// request completes (watchdog: 10 s), that nothing races or panics, and the final-state clause.
+type vfzNestedOp struct {
+	name string
+	mut  bool
+	run  func(c *vfzClient, dh, hx uint64)
+}
+
+func vfzHolders() []vfzNestedOp {
+	return []vfzNestedOp{
+		{"WRITE", true, func(c *vfzClient, dh, hx uint64) { c.write(hx, 1, []byte{7, 8, 9}) }},
+		{"SETATTR-size", true, func(c *vfzClient, dh, hx uint64) { c.setattr(hx, nil, u64p(1)) }},
+		{"SETATTR-mode", true, func(c *vfzClient, dh, hx uint64) { c.setattr(hx, u32p(0600), nil) }},
+		{"CREATE", true, func(c *vfzClient, dh, hx uint64) { c.create(dh, "x", 0, u32p(0640)) }},
+		{"READ", false, func(c *vfzClient, dh, hx uint64) { c.read(hx, 0, 8) }},
+		{"GETATTR", false, func(c *vfzClient, dh, hx uint64) { c.getattr(hx) }},
+		{"LOOKUP", false, func(c *vfzClient, dh, hx uint64) { c.lookup(dh, "x") }},
+		{"READDIRPLUS", false, func(c *vfzClient, dh, hx uint64) { c.readdir(dh, true) }},
+	}
+}
+
+// intruders: what the other client does while the holder is held, and after it completed
+var vfzIntruders = []struct {
+	name          string
+	during, after func(c *vfzClient, dh uint64)
+}{
+	{"rename-away-and-back", func(c *vfzClient, dh uint64) { c.rename(dh, "x", dh, "y") }, func(c *vfzClient, dh uint64) { c.rename(dh, "y", dh, "x") }},
+	{"remove-and-recreate", func(c *vfzClient, dh uint64) { c.remove(dh, "x") }, func(c *vfzClient, dh uint64) { c.create(dh, "x", 1, u32p(0644)) }},
+	{"remove", func(c *vfzClient, dh uint64) { c.remove(dh, "x") }, func(c *vfzClient, dh uint64) {}},
+}
+
+// vfzNestedEnv: / and /d, the file d/x (3 bytes) with its handle known to both clients.
+func vfzNestedEnv(t testing.TB) (*vfzHist, uint64, uint64) {
+	cfg := vfzCfg{TTL: "min", Mode: "contend"}
+	e := vfzNewEnv(t, cfg, 11)
+	root := e.mount(t)
+	boot := &vfzClient{e: e, id: -1, hs: map[uint64]*vfzHandle{}, kinds: map[string]string{}, r: &vfzRand{s: 11}, xid: 10}
+	boot.hold(root, []string{})
+	boot.mkdir(root, "d")
+	var dh, hx uint64
+	for h, x := range boot.hs {
+		if vfzKey(x.p) == "d" {
+			dh = h
+		}
+	}
+	boot.create(dh, "x", 0, u32p(0644))
+	for h, x := range boot.hs {
+		if vfzKey(x.p) == "d/x" {
+			hx = h
+		}
+	}
+	if dh == 0 || hx == 0 {
+		t.Fatalf("nested: setup failed")
+	}
+	boot.write(hx, 0, []byte{1, 2, 3})
+	h := &vfzHist{e: e, cfg: cfg}
+	for i := 0; i < 2; i++ {
+		c := &vfzClient{e: e, id: i, xid: uint32(1000 * (i + 1)), hs: map[uint64]*vfzHandle{}, kinds: map[string]string{}, dirs: []uint64{root, dh},
+			r: &vfzRand{s: uint64(i + 1)}, names: []string{"x", "y"}}
+		for _, hh := range boot.order {
+			c.hold(hh, boot.hs[hh].p)
+		}
+		h.clients = append(h.clients, c)
+	}
+	h.init = []M{}
+	return h, dh, hx
+}
+
+// vfzWithin runs f and reports whether it returned within 10 s (else: the goroutine dump).
+func vfzWithin(f func()) (bool, string) {
+	done := make(chan struct{})
+	go func() { defer close(done); f() }()
+	select {
+	case <-done:
+		return true, ""
+	case <-time.After(10 * time.Second):
+		buf := make([]byte, 1<<20)
+		return false, string(buf[:runtime.Stack(buf, true)])
+	}
+}
+
+// vfzNested runs the nested schedules; returns how many were run and whether a request hung.
+func vfzNested(t testing.TB, tr *vfTrace, seed int64, base int) (int, bool) {
+	all := vfThorough() || vfEnvInt("VF_LIN_NESTED", 1) == 2
+	n := 0
+	for _, hd := range vfzHolders() {
+		// probe: the boundaries the holder passes when it runs alone
+		ph, pdh, phx := vfzNestedEnv(t)
+		rec := &vfzRecorder{}
+		ph.e.rec.Store(rec)
+		hd.run(ph.clients[1], pdh, phx)
+		ph.e.rec.Store(nil)
+		ph.e.n.Close()
+		for k := range rec.list {
+			for iv, in := range vfzIntruders {
+				if !all && !hd.mut && (int(seed)+k)%len(vfzIntruders) != iv {
+					continue // quick tier: read-type holders get one intruder per boundary
+				}
+				hist := base - n
+				n++
+				fmt.Fprintf(os.Stderr, "VF-LIN-HIST %d\n", hist)
+				name := fmt.Sprintf("nested: %s held at boundary %d (%s), %s", hd.name, k, rec.list[k], in.name)
+				h, dh, hx := vfzNestedEnv(t)
+				st := &vfzStop{any: true, reached: make(chan struct{}), release: make(chan struct{})}
+				st.skip.Store(int32(k))
+				h.e.stop.Store(st)
+				held := make(chan struct{})
+				go func() { defer close(held); hd.run(h.clients[1], dh, hx) }()
+				hung, dump := false, ""
+				select {
+				case <-st.reached:
+					in.during(h.clients[0], dh)
+					close(st.release)
+				case <-held: // the holder took another path this time: nothing was held
+				case <-time.After(10 * time.Second):
+					hung = true
+				}
+				if !hung {
+					ok, d := vfzWithin(func() { <-held })
+					hung, dump = !ok, d
+				}
+				if !hung {
+					steps := []func(){
+						func() { in.after(h.clients[0], dh) },
+						func() { h.clients[0].getattr(hx) },
+						func() { h.clients[1].setattr(hx, u32p(0644), nil) },
+						func() { h.clients[0].write(hx, 0, []byte{5}) },
+						func() { h.clients[1].read(hx, 0, 4) },
+						func() { h.clients[0].lookup(dh, "x") },
+						func() { h.clients[1].readdir(dh, true) },
+						func() { h.clients[0].getattr(dh) },
+					}
+					for _, f := range steps {
+						if ok, d := vfzWithin(f); !ok {
+							hung, dump = true, d
+							break
+						}
+					}
+				}
+				if hung {
+					if dump == "" {
+						buf := make([]byte, 1<<20)
+						dump = string(buf[:runtime.Stack(buf, true)])
+					}
+					fmt.Fprintf(os.Stderr, "VF-LIN-DEADLOCK-BEGIN %d\n%s\nVF-LIN-DEADLOCK-END\n", hist, dump)
+					// (a request is stuck: only what the other goroutines own is safe to read)
+					tr.Emit(M{"ev": "hist", "hist": hist, "scenario": name, "seed": int(seed % (1 << 30)), "cfg": h.cfg, "T": 0, "nclients": 2, "init": []M{}, "ops": []M{},
+						"final": []M{}, "tab": []M{}, "byp": []M{}, "badnodes": 0, "attr": []M{}, "dirc": []M{}, "expired": 0,
+						"rounds": M{"n": 0, "ntab": []int{}, "nbyp": []int{}, "nun": []int{}, "odd": []M{}},
+						"events": []M{{"ev": "deadlock", "what": "a request did not complete within 10 s (" + name + ")", "detail": ""}}})
+					vfzFlush(tr)
+					return n, true
+				}
+				tr.Emit(h.record(hist, seed, M{"scenario": name}))
+				vfzFlush(tr)
+				h.e.n.Close()
+			}
+		}
+	}
+	return n, false
+}
+
 type vfzScenario struct {
 	name string
 	cfg  vfzCfg
@@ -1361,6 +1543,25 @@ func vfzScenarios() []vfzScenario {
 		func(c *vfzClient, d uint64) { c.readdir(d, true) },
 		func(c *vfzClient, d uint64) { c.rename(d, "y", d, "x"); c.mkdir(d, "y") },
 		nil)
+	// SETATTR compares the requested mode with the handle's own (stale) idea of the mode (sequential):
+	// chmod 0700 through a symbolic link to x, then SETATTR x back to 0644 through x's own handle
+	out = append(out, vfzScenario{name: "setattr-trusts-stale-handle-mode", cfg: vfzCfg{TTL: "min"}, run: func(t testing.TB) (*vfzHist, bool) {
+		return vfzDirected(t, "setattr-trusts-stale-handle-mode", vfzCfg{TTL: "min"},
+			func(boot *vfzClient, d uint64) { boot.create(d, "x", 0, u32p(0644)); boot.symlink(d, "l", "x") }, "", "", "", nil,
+			func(c *vfzClient, d uint64) {
+				var hl, hx uint64
+				for hh, x := range c.hs {
+					switch vfzKey(x.p) {
+					case "d/l":
+						hl = hh
+					case "d/x":
+						hx = hh
+					}
+				}
+				c.setattr(hl, u32p(0700), nil)
+				c.setattr(hx, u32p(0644), nil)
+			}, nil)
+	}})
 	// REMOVE of an (empty) directory leaves the directory's own cached listing behind (sequential)
 	out = append(out, vfzScenario{name: "remove-dir-leaves-listing", cfg: vfzCfg{TTL: "def", Dir: true}, run: func(t testing.TB) (*vfzHist, bool) {
 		h, ok := vfzDirected(t, "remove-dir-leaves-listing", vfzCfg{TTL: "def", Dir: true},
@@ -1413,6 +1614,15 @@ func TestVF_Linearize(t *testing.T) {
 			vfzFlush(tr)
 			ndirected++
 			h.e.n.Close()
+		}
+	}
+	nnested := 0
+	if vfEnvInt("VF_LIN_NESTED", 1) != 0 && vfEnvInt("VF_LIN_DIRECTED", 1) != 0 {
+		var hung bool
+		nnested, hung = vfzNested(t, tr, seed, -1000)
+		if hung {
+			deadlocks++
+			nh = 0 // (as for a hung history below: stop here)
 		}
 	}
 	for hi := 0; hi < nh; hi++ {
@@ -1539,6 +1749,6 @@ func TestVF_Linearize(t *testing.T) {
 		h.e.n.Close()
 	}
 	vfWriteJSON(t, "linearize.summary.json", M{"histories": nh, "nontrivial": nontrivial, "overlapped": overlapped, "ops": totalOps,
-		"deadlocks": deadlocks, "directed": ndirected, "undriven": undriven, "samples": samples, "wall_ms": time.Since(t0).Milliseconds(), "completed": true})
+		"deadlocks": deadlocks, "directed": ndirected, "nested": nnested, "undriven": undriven, "samples": samples, "wall_ms": time.Since(t0).Milliseconds(), "completed": true})
 	_ = path.Join
 }
